@@ -311,6 +311,49 @@ def fam_g_helper_list_without():
     return FamilySpec(nm, ["C03", "C04", "C05", "C06", "C17"], run, functions=["utilities.list_without_entry_at"])
 
 
+def fam_g_helper_partition():
+    """utilities.partition_by_predicate(entries, predicate) for a list of any length and any
+    predicate of the entry: the two returned lists are the hits and the misses in order
+    (cnt / sigma / tau of invariants.partition_ghost) - the contract gexec.helper_partition uses."""
+    nm = "utilities.partition_by_predicate[any length]"
+
+    def run(prog, tier):
+        from ..gmode import SList, IndexedItem
+        from .. import invariants
+        from ..values import Builtin
+        fd = prog.func("utilities.partition_by_predicate")
+
+        def setup(I):
+            I.ghost["inline_helper"] = fd.qualname
+            k = z3.Int("k")
+            I.path.assume(k >= 0)
+            g = invariants.partition_ghost(I, k)
+            sl = SList(k, lambda t: IndexedItem(t), "entries")
+            pred = Builtin("predicate", lambda a, kw: g["P"](a[0].idx))
+            I.ghost.update({"k": k, "g": g})
+            return lambda: I.call_funcdef(fd, [sl, pred], {})
+
+        def post(I, res, emit):
+            g, k = I.ghost["g"], I.ghost["k"]
+            if res.outcome[0] != "ret":
+                emit("no-exception", ["C17"], z3.BoolVal(False), info=f"{H.exc_kind(res.outcome[1])} at {res.outcome[2]}")
+                return
+            r = res.outcome[1]
+            ok = isinstance(r, tuple) and len(r) == 2 and all(isinstance(x, SList) for x in r)
+            emit("returns-two-lists", ["C17", "C08"], z3.BoolVal(ok))
+            if not ok:
+                return
+            hits, misses = r
+            u = z3.Int("u!post")
+            qm(I).add_index(u, k)
+            emit("hits-length", ["C08"], hits.length == g["cnt"](k))
+            emit("misses-length", ["C08"], misses.length == k - g["cnt"](k))
+            emit("hits-elements", ["C08"], z3.Implies(z3.And(u >= 0, u < hits.length), hits.elem(u).idx == g["sigma"](u)))
+            emit("misses-elements", ["C08"], z3.Implies(z3.And(u >= 0, u < misses.length), misses.elem(u).idx == g["tau"](u)))
+        return H.run_family(prog, nm, setup, post)
+    return FamilySpec(nm, ["C08", "C05", "C06", "C07", "C09", "C17"], run, functions=["utilities.partition_by_predicate"])
+
+
 _specs0 = specs
 
 
@@ -323,7 +366,7 @@ def specs(prog, tier):                                    # noqa: F811
     out += [fam_g_numeric_partial(add), fam_g_compute_numeric_partials(add)]
     mul = prog.classes["Multiply"]
     out += [fam_g_compute_numeric_partials(mul), fam_g_numeric_partial(mul)]
-    out += [fam_g_helper_multiply(), fam_g_helper_list_without()]
+    out += [fam_g_helper_multiply(), fam_g_helper_list_without(), fam_g_helper_partition()]
     return out
 
 
@@ -575,7 +618,8 @@ def fam_g_reducer(cls, rule):
 
 
 G_REDUCERS = [("Multiply", "_reduce_product_when_multiplying_by_zero"), ("Multiply", "_reduce_product_by_eliminating_ones"),
-              ("Add", "_reduce_sum_by_eliminating_zeros")]
+              ("Add", "_reduce_sum_by_eliminating_zeros"),
+              ("Multiply", "_reduce_product_by_consolidating_constants"), ("Add", "_reduce_sum_by_consolidating_constants")]
 
 _specs4 = specs
 
